@@ -1,4 +1,5 @@
 #!/bin/bash
+export VERIF_EVIDENCE_DIR=$(mktemp -d /tmp/evid.XXXX)   # runs on patched trees must not overwrite the committed evidence
 # tools_seed.sh <seedname> <worktree> <props...> : confirm an independently produced seeded change and run the checks on it
 # 1. in the scratch worktree: build + ctest with the change, demo must fail; without the change demo must pass
 # 2. apply the patch to /repo, run ./check for the given properties, undo it
